@@ -112,6 +112,26 @@ def check_zero_sizes(ctx, prog, tag=""):
                 if _c09.step_capture_is_tested(prog, f, c.args[1]):
                     ev = "captured step, tested against 0 before the closure was built"
                     key = "%s|%s" % ((f.root or f.path) + "::{closure}", last)
+            if not ev and f.kind != "closure" and not f.is_pub:
+                # the size is a parameter of a private function: every call site hands over a size that is non-zero there
+                os_ = flow.origins(f, c.args[1]) if "c" not in c.args[1] else []
+                if os_ and all(o.kind == "arg" and not o.proj for o in os_):
+                    sites = prog.calls_of(f.path)
+                    good = bool(sites)
+                    for cs in sites:
+                        for o in os_:
+                            idx = o.arg - 1
+                            if idx >= len(cs.args):
+                                good = False
+                                continue
+                            a = cs.args[idx]
+                            ok_here = _nonzero_evidence(cs.fn, cs.bb, a)
+                            if not ok_here and cs.fn.kind == "closure":
+                                from . import c09 as _c09
+                                ok_here = _c09.step_capture_is_tested(prog, cs.fn, a)
+                            good = good and bool(ok_here)
+                    if good:
+                        ev = "parameter of a private function; every call site passes a size that is non-zero there"
             why = ev or (REVIEWED_ZERO.get(key) and "reviewed - " + REVIEWED_ZERO[key])
             ctx.ob("C01.P20.size-that-panics-on-zero-is-non-zero", tag + key, bool(why),
                    ("accepted: " + why) if why else
